@@ -86,7 +86,134 @@ pub fn spec(rules: &[Item]) -> String {
     format!("ok:{}", placed.iter().map(|x| x.to_string()).collect::<Vec<_>>().join(","))
 }
 
+// ---- the chain order on EVERY use inside the parser: tokenizer loops and look-ahead sweeps -------------------
+use markdown_it::parser::block::{BlockRule, BlockState};
+use markdown_it::parser::inline::{InlineRule, InlineState};
+use markdown_it::{MarkdownIt, Node, NodeValue, Renderer};
+use std::cell::RefCell;
+
+thread_local! {
+    /// (block?, line or pos, silent, tracer index, verdict) in execution order
+    static SWEEP: RefCell<Vec<(bool, usize, bool, usize, bool)>> = RefCell::new(vec![]);
+}
+#[derive(Debug)]
+struct TrNode;
+impl NodeValue for TrNode { fn render(&self, _: &Node, fmt: &mut dyn Renderer) { fmt.text("@"); } }
+
+/// block tracer `N`: a one-line block `<letter N>@...`; follows the look-ahead contract
+struct TrB<const N: usize>;
+impl<const N: usize> BlockRule for TrB<N> {
+    fn run(state: &mut BlockState, silent: bool) -> bool {
+        let line = state.line;
+        let ok = state.line_indent(line) < 4 && {
+            let mut c = state.get_line(line).chars();
+            c.next() == Some((b'a' + N as u8) as char) && c.next() == Some('@')
+        };
+        SWEEP.with(|l| l.borrow_mut().push((true, line, silent, N, ok)));
+        if !ok { return false; }
+        if !silent {
+            let mut node = Node::new(TrNode);
+            node.srcmap = state.get_map(line, line);
+            state.node.children.push(node);
+            state.line += 1;
+        }
+        true
+    }
+}
+/// inline tracer `N`: the two characters `@<digit N>`
+struct TrI<const N: usize>;
+impl<const N: usize> InlineRule for TrI<N> {
+    const MARKER: char = '@';
+    fn run(state: &mut InlineState, silent: bool) -> Option<usize> {
+        let pos = state.pos;
+        let mut c = state.src[state.pos..state.pos_max].chars();
+        let ok = c.next() == Some('@') && c.next() == Some((b'0' + N as u8) as char);
+        SWEEP.with(|l| l.borrow_mut().push((false, pos, silent, N, ok)));
+        if !ok { return None; }
+        if !silent {
+            let mut node = Node::new(TrNode);
+            node.srcmap = state.get_map(pos, pos + 2);
+            state.node.children.push(node);
+        }
+        Some(2)
+    }
+}
+
+/// register tracers 0..k in the order `perm`, with before/after constraints that force the chain order 0,1,..,k-1
+fn add_tracers(md: &mut MarkdownIt, perm: &[usize], block: bool) {
+    let mut have = [false; 6];
+    macro_rules! addb { ($n:literal, $i:expr) => {{
+        let b = md.block.add_rule::<TrB<$n>>();
+        let b = if $i > 0 && have[$i - 1] { match $i - 1 { 0 => b.after::<TrB<0>>(), 1 => b.after::<TrB<1>>(), 2 => b.after::<TrB<2>>(), 3 => b.after::<TrB<3>>(), _ => b.after::<TrB<4>>() } } else { b };
+        if $i < 5 && have[$i + 1] { match $i + 1 { 1 => { b.before::<TrB<1>>(); } 2 => { b.before::<TrB<2>>(); } 3 => { b.before::<TrB<3>>(); } 4 => { b.before::<TrB<4>>(); } _ => { b.before::<TrB<5>>(); } } }
+    }} }
+    macro_rules! addi { ($n:literal, $i:expr) => {{
+        let b = md.inline.add_rule::<TrI<$n>>();
+        let b = if $i > 0 && have[$i - 1] { match $i - 1 { 0 => b.after::<TrI<0>>(), 1 => b.after::<TrI<1>>(), 2 => b.after::<TrI<2>>(), 3 => b.after::<TrI<3>>(), _ => b.after::<TrI<4>>() } } else { b };
+        if $i < 5 && have[$i + 1] { match $i + 1 { 1 => { b.before::<TrI<1>>(); } 2 => { b.before::<TrI<2>>(); } 3 => { b.before::<TrI<3>>(); } 4 => { b.before::<TrI<4>>(); } _ => { b.before::<TrI<5>>(); } } }
+    }} }
+    for &i in perm {
+        if block { match i { 0 => addb!(0, i), 1 => addb!(1, i), 2 => addb!(2, i), 3 => addb!(3, i), 4 => addb!(4, i), _ => addb!(5, i) } }
+        else { match i { 0 => addi!(0, i), 1 => addi!(1, i), 2 => addi!(2, i), 3 => addi!(3, i), 4 => addi!(4, i), _ => addi!(5, i) } }
+        have[i] = true;
+    }
+}
+
+fn sweep_doc(rng: &mut Rng, k: usize) -> String {
+    let mut s = String::new();
+    for _ in 0..rng.range(2, 9) {
+        let pre = *rng.pick(&["", "", "", "> ", "- ", "  ", "   ", "    ", "1. ", "> > "]);
+        let t = rng.below(k.max(1));
+        let body = match rng.below(9) {
+            0 | 1 => format!("{}@ x", (b'a' + t as u8) as char),
+            2 | 3 => format!("text @{} more [l @{}](u) *e @{}*", t, rng.below(k.max(1)), rng.below(k.max(1))),
+            4 => "plain words".to_string(),
+            5 => String::new(),
+            6 => "# head @0".to_string(),
+            7 => "===".to_string(),
+            _ => format!("w @{}@{} `@{}`", t, rng.below(k.max(1)), t),
+        };
+        s.push_str(pre); s.push_str(&body); s.push('\n');
+    }
+    s
+}
+
+/// every sweep over the chain - main loops and look-ahead alike, at every nesting depth - asks the rules in chain
+/// order from the first one, and goes on to the next rule only when the previous one declined
+fn sweep_order(n: usize, rng: &mut Rng, rep: &mut Report) {
+    for _ in 0..n {
+        let k = rng.range(2, 6);
+        let mut perm: Vec<usize> = (0..k).collect();
+        for i in (1..k).rev() { let j = rng.below(i + 1); perm.swap(i, j); }
+        let mut perm_i = perm.clone();
+        for i in (1..k).rev() { let j = rng.below(i + 1); perm_i.swap(i, j); }
+        let src = sweep_doc(rng, k);
+        let input = format!("tracers registered {:?} (block) {:?} (inline), constraints force 0..{}; src={}", perm, perm_i, k, crate::util::hexs(&src));
+        let mut md = MarkdownIt::new();
+        markdown_it::plugins::cmark::add(&mut md);
+        add_tracers(&mut md, &perm, true);
+        add_tracers(&mut md, &perm_i, false);
+        SWEEP.with(|l| l.borrow_mut().clear());
+        let r = guarded(|| { let t = md.parse(&src); t.render() });
+        let log = SWEEP.with(|l| l.borrow().clone());
+        rep.stats.case(&input, log.len() >= 6);
+        rep.stats.add("sweep_calls", log.len() as u64);
+        if r.is_err() { rep.violation("panic", input.clone(), format!("{:?}", r)); continue; }
+        let mut prev: Option<(bool, usize, bool, usize, bool)> = None;
+        for e in log.iter() {
+            let ok = e.3 == 0 || matches!(prev, Some(p) if p.0 == e.0 && p.1 == e.1 && p.2 == e.2 && p.3 + 1 == e.3 && !p.4);
+            if !ok {
+                rep.violation("sweep-order", input.clone(), format!("{} rule #{} was asked at {} {} (look-ahead={}) although the previous call was {:?}: every use of the chain must start with rule #0 and follow the constrained order",
+                    if e.0 { "block" } else { "inline" }, e.3, if e.0 { "line" } else { "pos" }, e.1, e.2, prev));
+                break;
+            }
+            prev = Some(*e);
+        }
+    }
+}
+
 pub fn run(n: usize, rng: &mut Rng, rep: &mut Report) {
+    sweep_order(n / 25 + 20, rng, rep);
     // corpus: phantom holder
     let corpus = vec![vec![Item { marks: vec![0], prio: 0, cons: vec![Con::Before(25)] }, Item { marks: vec![1], prio: 0, cons: vec![Con::Require(25)] }]];
     for i in 0..n + corpus.len() {
